@@ -147,7 +147,18 @@ Proof.
   assert (Hnn : ls <> []) by (subst; discriminate).
   clear Els l0 ls0.
   pose proof (escape_name_nonempty ls Hnn Hne) as Ht.
-  unfold unescape. destruct (escape_name ls) as [|t0 t] eqn:Et; [congruence|]. rewrite <- Et.
+  assert (Hnd : is_dot (escape_name ls) = false).
+  { destruct (is_dot (escape_name ls)) eqn:Hd; [|reflexivity]. exfalso.
+    unfold is_dot in Hd. destruct (escape_name ls) as [|b [|b2 r]] eqn:Et; try discriminate.
+    apply Z.eqb_eq in Hd.
+    pose proof (tokens_escape_name ls Hok) as Htk. rewrite Et in Htk. cbn [tokens] in Htk.
+    rewrite Hd in Htk. cbn in Htk. injection Htk as Htk.
+    pose proof (split_name_tokens ls Hnn) as Hsp. rewrite <- Htk in Hsp. cbn in Hsp.
+    subst ls. inversion Hne as [|? ? Hl1 _]. congruence. }
+  unfold unescape.
+  remember (escape_name ls) as txt eqn:Etxt in *.
+  destruct txt as [|t0 t]; [congruence|].
+  rewrite Hnd. rewrite Etxt.
   rewrite (tokens_escape_name ls Hok). rewrite (split_name_tokens ls Hnn).
   assert (Hlast : match rev ls with [] :: r => rev r | _ => ls end = ls).
   { destruct (rev ls) as [|x r] eqn:Er; [reflexivity|].
